@@ -67,18 +67,18 @@ theorem no_attempt_after_retries (c : Cfg) (mi : List (Nat × HostInfo)) (p : PS
   simp only [PSide.handleOutbound, hl, hc, if_true]
 
 /-- Queue bound: cachePacket never lets a queue grow beyond maxCachedPackets (= 100, regenerated). -/
-theorem queue_bound (hh : Pending) (q : Cached) (h : hh.store.length ≤ nebula_maxCachedPackets) :
-    (hh.cache q).store.length ≤ nebula_maxCachedPackets := by
+theorem queue_bound (hh : Pending) (q : Cached) (h : hh.store.length ≤ hsm_maxCachedPackets) :
+    (hh.cache q).store.length ≤ hsm_maxCachedPackets := by
   unfold Pending.cache
   split
   · simp; omega
   · exact h
 
-theorem queue_cap_is_100 : nebula_maxCachedPackets = 100 := rfl
+theorem queue_cap_is_100 : hsm_maxCachedPackets = 100 := rfl
 
 /-- a full queue drops the packet, a non-full queue appends it at the end (order of arrival) -/
 theorem queue_fifo (hh : Pending) (q : Cached) :
-    (hh.cache q).store = if hh.store.length < nebula_maxCachedPackets then hh.store ++ [q] else hh.store := by
+    (hh.cache q).store = if hh.store.length < hsm_maxCachedPackets then hh.store ++ [q] else hh.store := by
   unfold Pending.cache; split <;> rfl
 
 /-- Flush on completion: when the right host answers, exactly the queued packets the outbound firewall
@@ -118,7 +118,7 @@ of all back-off delays, for odd n less than that — but never less than the lar
 n·interval except for n = 1, where the wheel clamps the delay and still fires two ticks later
 (`retries_one_fires_like_the_others`). -/
 theorem hsTimeout_table :
-    (List.range 64).all (fun n => nebula_hsTimeout (BitVec.ofNat 64 n) 100000000#64 ==
+    (List.range 64).all (fun n => hsm_hsTimeout (BitVec.ofNat 64 n) 100000000#64 ==
       BitVec.ofNat 64 (n / 2 * (n + 1) * 100000000)) = true := by decide
 
 /-- F17 (suspected in the design, NOT a defect): with retries = 1 the wheel span is 0 and the single
